@@ -6,6 +6,7 @@ import ast
 from fractions import Fraction
 
 from sa.astutil import (
+    raise_conditions,
     arg_or_kw,
     call_name,
     calls_in,
@@ -54,14 +55,15 @@ def r1_exactly_one(ctx):
     pi = ctx.func(f"{CF}:Configuration.__post_init__")
     for label, names in (("modes", MODES), ("detectors", DETECTORS)):
         found = False
-        for gd in raising_ifs(pi.node):
-            t = gd.test
-            if isinstance(t, ast.Compare) and isinstance(t.ops[0], ast.NotEq) and norm(t.comparators[0]) == "1":
-                cnt = expand(pi, t.left)
-                if isinstance(cnt, ast.Call) and call_name(cnt) == "sum":
-                    attrs = {a.attr for a in ast.walk(cnt) if isinstance(a, ast.Attribute) and dotted(a.value) == "self"}
-                    if attrs == set(names) and "is not None" in norm(cnt):
-                        found = True
+        for r_, conds in raise_conditions(pi):
+            for t, pol in conds:
+                # raised exactly when the count differs from one (canonical form: `count == 1` is False)
+                if isinstance(t, ast.Compare) and len(t.ops) == 1 and isinstance(t.ops[0], ast.Eq) and norm(t.comparators[0]) == "1" and not pol:
+                    cnt = expand(pi, t.left)
+                    if isinstance(cnt, ast.Call) and call_name(cnt) == "sum":
+                        attrs = {a.attr for a in ast.walk(cnt) if isinstance(a, ast.Attribute) and dotted(a.value) == "self"}
+                        if attrs == set(names) and "is not None" in norm(cnt):
+                            found = True
         ctx.check(found, pi.qual + f"#{label}", f"raises unless exactly one of {sorted(names)} is set" if found else f"no exactly-one check over {sorted(names)}", where=pi, node=pi.node)
     bc = ctx.func(f"{CF}:_build_configuration")
     g = ctx.cfg(bc)
